@@ -76,7 +76,7 @@ DUMMY = {"prog (option major)": "Throw EDec", "prog (major * N)": "Throw EDec", 
 SHAPES = {
  "read_to_buffer": "if(eq(m_p,m_end),{if(call(member(m_input,eof)),throw);call(member(m_input,read),?CXXReinterpretCastExpr,BUFFER_SIZE);assign(m_p,m_buffer);assign(m_end,add(m_buffer,call(member(m_input,gcount))));if(eq(m_p,m_end),throw)})",
  "read_string": "decl(ret=?CXXConstructExpr);if(lnot(indef),{call(member(ret,reserve),cond(lt(length,BUFFER_SIZE),length,BUFFER_SIZE));for(decl(i=0),_,lt(i,length),postinc(i),{call(read_to_buffer);call(member(ret,push_back),index(m_p,0));postinc(m_p)})},{while(ne(call(peek_type),BREAK),{decl(chunk_type);decl(chunk_length_value);call(read_cbor_type,chunk_type,chunk_length_value);if(ne(chunk_type,cbor_type),throw,if(eq(chunk_length_value,31),throw));decl(chunk_length=call(read_int,chunk_length_value));call(member(ret,reserve),add(call(member(ret,size)),cond(lt(chunk_length,BUFFER_SIZE),chunk_length,BUFFER_SIZE)));for(decl(i=0),_,lt(i,chunk_length),postinc(i),{call(read_to_buffer);call(member(ret,push_back),index(m_p,0));postinc(m_p)})});call(read_break)});return(ret)",
- "read_array": "decl(indef=false);decl(length=call(read_array_start,indef));while(lor(gt(length,0),indef),{if(land(indef,eq(call(peek_type),BREAK)),{call(read_break);break});?CXXOperatorCallExpr;postdec(length)})",
+ "read_array": "decl(indef=false);decl(length=call(read_array_start,indef));while(lor(gt(length,0),indef),{if(land(indef,eq(call(peek_type),BREAK)),{call(read_break);break});opcall(operator(),cb,deref(?CXXThisExpr));postdec(length)})",
  "skip_item": "decl(Pending=?CXXRecordDecl);decl(stack=?CXXConstructExpr);call(member(stack,push_back),?InitListExpr);while(lnot(call(member(stack,empty))),{if(member(call(member(stack,back)),indef),if(eq(call(peek_type),BREAK),{postinc(m_p);call(member(stack,pop_back));continue}),{if(eq(member(call(member(stack,back)),items),0),{call(member(stack,pop_back));continue});postdec(member(call(member(stack,back)),items))});decl(cbor_type);decl(item_length);call(read_cbor_type,cbor_type,item_length);switch(cbor_type,{case(UNSIGNED,case(NEGATIVE,if(ge(item_length,28),throw)));call(read_int,item_length);break;case(TAG,if(ge(item_length,28),throw));call(read_int,item_length);call(member(stack,push_back),?InitListExpr);break;case(SIMPLE,if(land(ge(item_length,28),le(item_length,30)),throw));call(read_int,item_length);break;case(BYTE_STRING,case(TEXT_STRING,if(land(ge(item_length,28),le(item_length,30)),throw)));call(read_string,cbor_type,call(read_int,item_length),cond(eq(item_length,31),true,false));break;case(ARRAY,case(MAP,if(land(ge(item_length,28),le(item_length,30)),throw)));if(eq(item_length,31),call(member(stack,push_back),?InitListExpr),{decl(item_count=call(read_int,item_length));call(member(stack,push_back),?InitListExpr);if(eq(cbor_type,MAP),call(member(stack,push_back),?InitListExpr))});break;default(throw);break})})",
 }
 
